@@ -96,7 +96,10 @@ def grouped_rows(draw, binary=True):
     n in [2, 20].  Returns {"n", "sf", "cf", "y"(binary only)}.
     """
     galpha = gen.ALPHABETS[draw(st.sampled_from(GROUP_ALPHABETS))]
-    k = draw(st.sampled_from([2, 2, 3, 3, 4]))
+    k = draw(st.sampled_from([2, 2, 3, 3, 4, 2, 3, 4, 12, 25]))
+    if k > 4:
+        # many groups: labels whose string order differs from their numeric order ('g10' < 'g2'; 10 < 9 as strings)
+        galpha = draw(st.sampled_from([["g%d" % i for i in range(30)], list(range(30)), [3 * i - 20 for i in range(30)]]))
     groups = list(draw(st.permutations(galpha)))[:k]
     has_cf = draw(st.booleans())
     if has_cf:
@@ -113,7 +116,7 @@ def grouped_rows(draw, binary=True):
     else:
         active = [c for c in cells if draw(st.integers(0, 9)) < 6]
     n_cover = max(k, len(strata))
-    n = draw(st.integers(max(2, n_cover), 20))
+    n = draw(st.integers(max(2, n_cover), max(20, n_cover + 15)))
     rows = []
     if dense and n >= len(cells):
         rows = list(cells)
